@@ -57,8 +57,8 @@ def run(chk, replay=None):
             p = Prog(text, list(wt.items()), "shape/%s/%s" % (kind, gen.ty_src(T)))
             p.kind = kind
             progs.append(p)
-    gprogs = corelib.gen_programs(chk, 80 if quick else 1500, "gsat", size=30)
-    gprogs += corelib.partial_witness_programs(chk, 80 if quick else 2000, "pw")
+    gprogs = corelib.gen_programs(chk, 80 if quick else 1000, "gsat", size=30)
+    gprogs += corelib.partial_witness_programs(chk, 80 if quick else 1000, "pw")
     acc = corelib.check_terms(chk, progs + gprogs, dbgs=(0,))
     # every (program, witness map): redeem CMR = commit CMR, encoding decodes with that CMR, no panic — all flagged by run_matrix;
     # in addition the commit CMR must not depend on the witness values: compare `commit` with the cmr facts of >= 3 maps
